@@ -326,6 +326,7 @@ func genC06(r *core.Rand, env *core.Env, run int) *Scenario {
 	aim := run%8 == 7
 	if !aim && run%5 == 3 {
 		sc.Knobs.YieldRMW = true
+		sc.Knobs.ReplyYield = r.Bool(0.5)
 		return genC06Concurrent(r, sc)
 	}
 	g := newLsGen(r, env, "c0:", 1, aim)
